@@ -22,7 +22,7 @@ ASSUMPTIONS = ["nvmon.ref exact reference model", "explored domain of DESIGN.md 
 FLOORS = {'quick': {'insert-accepted': 400, 'probe-lib': 4000, 'probe-defn': 4000, 'structure': 400, 'reject-intact': 100,
                     'hook:knot_insertion': 300},
           'thorough': {'insert-accepted': 5000, 'probe-lib': 50000}}
-MANDATORY_TAGS = ['pdim1', 'pdim2', 'pdim3', 'rational', 'on-knot', 'in-span', 'multi-dir', 'via:method', 'via:operations',
+MANDATORY_TAGS = ['pdim1', 'pdim2', 'pdim3', 'twins', 'rational', 'on-knot', 'in-span', 'multi-dir', 'via:method', 'via:operations',
                   'r>=2', 'unnormalized', 'dir:u', 'dir:v', 'dir:w']
 TECHNIQUE = ("runtime monitoring: shadow-model oracle (exact reference of the original definition) evaluated after every step of "
              "a seeded insertion history, plus an all-call post-condition hook on helpers.knot_insertion/_kv")
@@ -129,6 +129,8 @@ def gen(rng, tier, shard, nshards):
         kw.setdefault('maxextra', {1: 6, 2: 4, 3: 2}[pd])
         sd = G.rand_shape(rng, pd, clamped_only=True, **kw)
         yield {'kind': 'history', 'sd': sd, 'seed': rng.randrange(1 << 30), 'steps': rng.randint(1, 8 if pd < 3 else 4)}
+        if i % 4 == 0:
+            yield {'kind': 'twins', 'seed': rng.randrange(1 << 30), 'pdim': rng.choice([1, 1, 2])}
 
 
 def structure_ok(ctx, pre, post, d, u, r, step):
@@ -152,7 +154,54 @@ def structure_ok(ctx, pre, post, d, u, r, step):
                      what='structure')
 
 
+def check_twins(case, ctx):
+    """two shapes with equal degrees and sizes but different interior knots receive the SAME parameter one after the other: the second
+    insertion must not be influenced by the first (memoised coefficients keyed too coarsely would be)"""
+    rng = random.Random(case['seed'])
+    pdim = case['pdim']
+    ctx.tag('twins')
+    sdA = G.rand_shape(rng, pdim, clamped_only=True, kvcls='random', maxextra=5 if pdim == 1 else 3, mindeg=2, maxdeg=4, pcls='uniform')
+    if min(n - p - 1 for n, p in zip(sdA['sizes'], sdA['degrees'])) < 1:
+        raise Reject()
+    sdB = dict(sdA)
+    sdB['kvs'] = [G.knot_vector(rng, p, n, 'random') for p, n in zip(sdA['degrees'], sdA['sizes'])]
+    sdB['ctrlpts'] = [[c + rng.uniform(-1, 1) for c in pt] for pt in sdA['ctrlpts']]
+    ctx.nontriv(True)
+    for order in ('AB', 'BA'):
+        objs = {'A': G.build(sdA), 'B': G.build(sdB)}
+        defs = {k: G.defn_of(v) for k, v in objs.items()}
+        d = rng.randrange(pdim)
+        p = sdA['degrees'][d]
+        # a parameter that lies in the span with the same index in both knot vectors and is clear of all knots of both
+        UA, UB = G.kvs_of(objs['A'])[d], G.kvs_of(objs['B'])[d]
+        u = None
+        for _ in range(60):
+            x = rng.uniform(0.02, 0.98)
+            if all(abs(x - k) > 2e-3 for k in set(UA) | set(UB)) and \
+                    ref.find_span(p, [F(k) for k in UA], F(x)) == ref.find_span(p, [F(k) for k in UB], F(x)):
+                u = x
+                break
+        if u is None:
+            raise Reject()
+        r = rng.randint(1, p)
+        for name in order:
+            o = objs[name]
+            with so.quiet():
+                so.call_insert(o, d, u, r, rng.choice(['operations', 'method']))
+            S0 = defs[name]
+            S1 = G.defn_of(o)
+            probes = [q for q in so.probe_params(rng, S0, nrand=5, maxn=16) if so.clear_of_knots(S1, q)]
+            ctx.ok('insert-accepted')
+            if not so.compare_object(ctx, o, S0, probes, 1e-9 * so.scale_of_defn(S0), 'shape-changed/library-eval',
+                                     'twin shapes, order %s: inserting %r x%d into shape %s changed it' % (order, u, r, name), 'probe-lib'):
+                return
+            so.compare_defns(ctx, S1, S0, probes, 1e-9 * so.scale_of_defn(S0), 'shape-changed/definition',
+                             'twin shapes, order %s: definition of shape %s after insertion differs' % (order, name), 'probe-defn')
+
+
 def check(case, ctx):
+    if case.get('kind') == 'twins':
+        return check_twins(case, ctx)
     if case.get('kind') == 'ambient-suite':
         from .. import ambient
         ctx.nontriv(True)
